@@ -33,6 +33,36 @@ CHECKS.update({
          "TLC explores every interleaving of the caller scripts, the guardian goroutine and the root's termination for five script families and checks start-once, stop-once, clean shutdown, lock release and (under fairness) that every call returns. Every behaviour of the small families and simulated behaviours of the larger ones are replayed step by step on a real system with a small actor tree (some with remoting); the monitor judges results against the state machine, hangs, registered actors and leftover library goroutines after Stop/cancel.",
          "The actor tree of the scenarios terminates when poison-killed (C06); a call that does not reach its next hook within 4 s is a hang; goroutine attribution uses stack frames of the library and go-quartz.",
          "§5 C07"),
+ "C03": ("model_checking",
+         "TLA+ spec ActorSys (actor tree at turn granularity: spawn, tell, kill, failure, supervision, restart, zombie, stash, watch, event stream) model-checked by TLC; TLC-simulated behaviours replayed turn by turn on a real actor.System through a gate in the mailbox consumer with the context projection compared after every step; recorded traces validated by TLC against the FateMon monitor",
+         "TLC explores all turn schedules of the tree t->{a,b} with every decision x strategy, driver tells and kills, and checks at rest that no mail is stranded and nobody is stuck. The real system is driven through the same behaviours (100% state conformance on the unchanged tree) and through random scenarios on 5 tree shapes with stash/unstash, scripted kills, launch and restart-hook failures; FateMon gives every user message exactly one fate (delivered / stash / dead letter), checks StashCount and that nothing happens to messages sent after Stop.",
+         "One turn (HandleEnvelop) is atomic w.r.t. other actors (C01); root and observer ungated; scripted behaviours/decision makers are the only user code; name re-use is outside the TLC model; exhaustiveness holds for the model, the code is bound by the replayed and sampled schedules.",
+         "§5 ActorSys / C03"),
+ "C05": ("model_checking",
+         "TLA+ spec ActorSys (actor tree at turn granularity: spawn, tell, kill, failure, supervision, restart, zombie, stash, watch, event stream) model-checked by TLC; TLC-simulated behaviours replayed turn by turn on a real actor.System through a gate in the mailbox consumer with the context projection compared after every step; recorded traces validated by TLC against the LifecycleMon monitor",
+         "Same model and binding; LifecycleMon checks per actor and incarnation: OnLaunch first, nothing after the own OnKilled, OnLaunch only to the starting actor, restart = new incarnation with its own OnLaunch and (provider) a fresh instance, no restarted actor left without launch.",
+         "One turn (HandleEnvelop) is atomic w.r.t. other actors (C01); root and observer ungated; scripted behaviours/decision makers are the only user code; name re-use is outside the TLC model; exhaustiveness holds for the model, the code is bound by the replayed and sampled schedules.",
+         "§5 ActorSys / C05"),
+ "C06": ("model_checking",
+         "TLA+ spec ActorSys (actor tree at turn granularity: spawn, tell, kill, failure, supervision, restart, zombie, stash, watch, event stream) model-checked by TLC; TLC-simulated behaviours replayed turn by turn on a real actor.System through a gate in the mailbox consumer with the context projection compared after every step; recorded traces validated by TLC against the KillMon monitor",
+         "Same model (invariants ChildrenFirst, KilledOnce) and binding; KillMon checks on real traces: ActorKilledEvent once per actor and only after all descendants, exactly one OnKilled to the parent and to safely registered watchers, whole subtree gone after a kill aimed at any node (immediate or poison, repeated, racing failures and restarts), FindActor fails afterwards, no event-stream entry left.",
+         "One turn (HandleEnvelop) is atomic w.r.t. other actors (C01); root and observer ungated; scripted behaviours/decision makers are the only user code; name re-use is outside the TLC model; exhaustiveness holds for the model, the code is bound by the replayed and sampled schedules.",
+         "§5 ActorSys / C06"),
+ "C08": ("model_checking",
+         "TLA+ spec ActorSys (actor tree at turn granularity: spawn, tell, kill, failure, supervision, restart, zombie, stash, watch, event stream) model-checked by TLC; TLC-simulated behaviours replayed turn by turn on a real actor.System through a gate in the mailbox consumer with the context projection compared after every step; recorded traces validated by TLC against the SuperviseMon monitor",
+         "Same model and binding; SuperviseMon checks that the parent's decision maker is consulted at most once per failure (exactly once when the supervisor lives) and only by the parent, and - on single-failure traces - that restart/stop/resume hit exactly the one-for-one / one-for-all targets and nobody else, that Resume keeps instance and does not redeliver the failing message, that Escalate reaches the grandparent and ends in the default Stop at the top.",
+         "One turn (HandleEnvelop) is atomic w.r.t. other actors (C01); root and observer ungated; scripted behaviours/decision makers are the only user code; name re-use is outside the TLC model; exhaustiveness holds for the model, the code is bound by the replayed and sampled schedules.",
+         "§5 ActorSys / C08"),
+ "C09": ("model_checking",
+         "TLA+ spec ActorSys (actor tree at turn granularity: spawn, tell, kill, failure, supervision, restart, zombie, stash, watch, event stream) model-checked by TLC; TLC-simulated behaviours replayed turn by turn on a real actor.System through a gate in the mailbox consumer with the context projection compared after every step; recorded traces validated by TLC against the UnstuckMon monitor",
+         "Same model (invariants NobodyStuck, NoStrandedMail at rest) and binding; UnstuckMon checks at every quiescent point of the real system that no live actor is paused or half-stopped and no user mail is stranded, that every actor answers a probe (live: delivered, gone: dead letter), that queued mail keeps its order through restart/resume, and that a zombie runs no user code.",
+         "One turn (HandleEnvelop) is atomic w.r.t. other actors (C01); root and observer ungated; scripted behaviours/decision makers are the only user code; name re-use is outside the TLC model; exhaustiveness holds for the model, the code is bound by the replayed and sampled schedules.",
+         "§5 ActorSys / C09"),
+ "C19": ("model_checking",
+         "TLA+ spec ActorSys (actor tree at turn granularity: spawn, tell, kill, failure, supervision, restart, zombie, stash, watch, event stream) model-checked by TLC; TLC-simulated behaviours replayed turn by turn on a real actor.System through a gate in the mailbox consumer with the context projection compared after every step; recorded traces validated by TLC against the StreamMon monitor",
+         "Same binding with subscribe / unsubscribe / unsubscribe-all / publish operations on two event types inside turns, subscribers failing, restarting and terminating in between; StreamMon checks delivery exactly once to exactly the subscribers at publication time, type isolation, publisher order, nothing to unsubscribed or terminated actors, and that the stream's forward and reverse tables equal the monitor's subscription set at every quiescent point (no entry after termination, restart keeps).",
+         "One turn (HandleEnvelop) is atomic w.r.t. other actors (C01); root and observer ungated; scripted behaviours/decision makers are the only user code; name re-use is outside the TLC model; exhaustiveness holds for the model, the code is bound by the replayed and sampled schedules.",
+         "§5 ActorSys / C19"),
 })
 
 NOT_YET = {
